@@ -8,6 +8,7 @@ import CbiVerif.Drv.Exclude
 import CbiVerif.Drv.C08
 import CbiVerif.Drv.Argv
 import CbiVerif.Drv.C01
+import CbiVerif.Drv.CLex
 /-! Native JSON-lines driver: one request object per line, one reply per line.
 Each area registers its ops in `CbiVerif/Drv/<Area>.lean`. -/
 open Lean
@@ -21,7 +22,8 @@ def handlerTable : List (String × (Json → Json)) :=
   CbiVerif.Drv.Exclude.handlers ++
   CbiVerif.Drv.C08.handlers ++
   CbiVerif.Drv.Argv.handlers ++
-  CbiVerif.Drv.C01.handlers
+  CbiVerif.Drv.C01.handlers ++
+  CbiVerif.Drv.CLex.handlers
 
 def handle (j : Json) : Json :=
   match j.getObjValAs? String "op" with
